@@ -709,39 +709,27 @@ def compute_online_moments_basic(
 @njit(cache=True, fastmath=True)
 def add_online_moments(a: np.ndarray, b: np.ndarray, c: np.ndarray) -> None:
     c["count"][:] = a["count"] + b["count"]
+    # Counts enter the merge terms up to the third power: integer powers overflow
+    # beyond 2**21 samples, so do the arithmetic in floating point.
+    na = a["count"].astype(np.float64)
+    nb = b["count"].astype(np.float64)
+    nc = na + nb
     delta = b["m1"] - a["m1"]
     delta2 = delta * delta
     delta3 = delta * delta2
     delta4 = delta2 * delta2
 
-    c["m1"][:] = (a["count"] * a["m1"] + b["count"] * b["m1"]) / c["count"]
-    c["m2"][:] = a["m2"] + b["m2"] + delta2 * a["count"] * b["count"] / c["count"]
-    c["m3"][:] = (
-        a["m3"]
-        + b["m3"]
-        + delta3
-        * a["count"]
-        * b["count"]
-        * (a["count"] - b["count"])
-        / (c["count"] ** 2)
-    )
-    c["m3"][:] += 3 * delta * (a["count"] * b["m2"] - b["count"] * a["m2"]) / c["count"]
+    c["m1"][:] = (na * a["m1"] + nb * b["m1"]) / nc
+    c["m2"][:] = a["m2"] + b["m2"] + delta2 * na * nb / nc
+    c["m3"][:] = a["m3"] + b["m3"] + delta3 * na * nb * (na - nb) / (nc**2)
+    c["m3"][:] += 3 * delta * (na * b["m2"] - nb * a["m2"]) / nc
     c["m4"][:] = (
         a["m4"]
         + b["m4"]
-        + delta4
-        * a["count"]
-        * b["count"]
-        * (a["count"] ** 2 - a["count"] * b["count"] + b["count"] ** 2)
-        / (c["count"] ** 3)
+        + delta4 * na * nb * (na**2 - na * nb + nb**2) / (nc**3)
     )
-    c["m4"][:] += (
-        6
-        * delta2
-        * (a["count"] ** 2 * b["m2"] + b["count"] ** 2 * a["m2"])
-        / (c["count"] ** 2)
-    )
-    c["m4"][:] += 4 * delta * (a["count"] * b["m3"] - b["count"] * a["m3"]) / c["count"]
+    c["m4"][:] += 6 * delta2 * (na**2 * b["m2"] + nb**2 * a["m2"]) / (nc**2)
+    c["m4"][:] += 4 * delta * (na * b["m3"] - nb * a["m3"]) / nc
     c["max"][:] = np.maximum(a["max"], b["max"])
     c["min"][:] = np.minimum(a["min"], b["min"])
 
